@@ -6,12 +6,13 @@ GROUP = dict(
     aliases=[(RL, 'RL'), ('babylon_vf::', '')],
     address_model=True,
     outside_funcs={'clock_gettime': 'vf_clock_gettime'},
-    roots=[RL + '::retire', RL + '::gc'],
+    roots=[RL + '::retire', RL + '::gc', RL + '::delete_list'],
     reviewed_compiler_conditionals=['src/babylon/concurrent/vector.hpp:#if !__clang__ && BABYLON_GCC_VERSION < 50000'],
     assumptions=['SC; the clock is monotone; other threads stamp what they push with the clock unit at their push and only drop lists whose head is expired (RELY)', 'A-aba: a head word this thread has observed is not installed again by others (address reuse with an equal truncated stamp)',
                  'address model: pointer <-> integer conversions go through VF_P2I / VF_I2P (own node = fixed 48-bit address, other nodes opaque 48-bit numbers)', 'delete_list is a contract stub (frees the list it is given)'],
     jobs=[
         dict(id='C04.retire.retire', enforce='RL_retire', replace=['RL_delete_list'], loops=True, backend='cadical', covers=['g_dropped', 'g_node->next != 0 && g_cas_ok == 1']),
+        dict(id='C04.retire.delete_list', enforce='RL_delete_list', loops=True, backend='cadical', defines=['VF_DELETE_LIST 1'], covers=['g_dln > 4', 'g_dln == 0']),
         dict(id='C04.retire.gc', enforce='RL_gc', replace=['RL_delete_list'], backend='cadical'),
     ],
 )
